@@ -117,6 +117,19 @@ theorem skip_total (d : Bytes) (wt : WT) :
     (skip d wt).fine ∧ ∀ n, skip d wt = .ok n → n ≤ d.length :=
   _root_.skip_total d wt
 
+/-- a WTVarInt field of ten bytes whose last byte carries more than the one bit
+that is left (`ff ff ff ff ff ff ff ff ff 7f`, or any continuation there) is
+malformed and Skip says so, as ReadVarUint does (repair e696ad7: Skip used to
+return 10 for it, so the field was an error when known and silently skipped
+when unknown). -/
+theorem skip_rejects_overflowing_varint (p : Bytes) (b : UInt8) (rest : Bytes) (hl : p.length = 9)
+    (hp : ∀ x ∈ p, 128 ≤ x.toNat) (h2 : 2 ≤ b.toNat) :
+    skip (p ++ b :: rest) .varint = .err :=
+  skip_varint_overflow p b rest hl hp h2
+
+example : skip [0xff, 0xff, 0xff, 0xff, 0xff, 0xff, 0xff, 0xff, 0xff, 0x7f, 0x00] .varint = .err := by decide
+example : skip [0xff, 0xff, 0xff, 0xff, 0xff, 0xff, 0xff, 0xff, 0xff, 0x01, 0x00] .varint = .ok 10 := by decide
+
 -- non-vacuity: the hypotheses are met by concrete, non-trivial instances
 example : readVarUint (appendVarUint 300 ++ [7]) = (300, Int.ofNat (appendVarUint 300).length) :=
   read_append 300 (by omega) [7]
